@@ -30,6 +30,7 @@ def dispatch (st : DriverState) (sub : String) (args : List String) : DriverStat
   | "cek" => (st, Drivers.Cek.handleCek st.costModel args)
   | "spec" => (st, Drivers.Cek.handleSpec args)
   | "bcost" => (st, Drivers.Cek.handleBCost st.costModel args)
+  | "costpos" => (st, Drivers.Cek.handleCostPos st.costModel)
   | "shrink" => (st, Drivers.Shrink.handle args)
   | "flat" => (st, Drivers.Flat.handle args)
   | "db" => (st, Drivers.DeBruijn.handle args)
